@@ -237,6 +237,10 @@ def check_case(case):
                 if key == "cov_fn" and dist == "normal":
                     floor = 1e-12 * float(np.max(np.abs(A))) * float(f[-1])
                 atol = floor if ("std" in key or key == "cov_fn") and "nth" not in key else 1e-300
+                if key.startswith("nth_std_") and dist == "normal":
+                    # mean + n*std can cancel (e.g. mean = 2*std, n = -2): tolerance relative to the terms, not to the difference
+                    base, arg = key[len("nth_std_"):-1].split("(")
+                    atol = 1e-12 * (np.abs(np.asarray(ref["mean_" + base], dtype=float)) + abs(float(arg)) * np.abs(np.asarray(ref["std_" + base], dtype=float)))
                 if not close(got[key], want, rtol=1e-10, atol=atol):
                     raise Violation(f"{step}: {key} ({dist}) = {np.ravel(got[key])[:4].tolist()} differs from the textbook estimator over the "
                                     f"{int(W.sum())} accepted windows / {int(P.sum())} accepted peaks = {np.ravel(want)[:4].tolist()} "
